@@ -49,3 +49,38 @@ Theorem C05_relu_negative_scale_refuted : exists (s : R) (data : tensor R), (s <
   deqR s (t_map (fun d => Rmax d 0) data) <> t_map (fun y => Rmax y 0) (deqR s data).
 Proof. exact sign_relu_negative_scale_refuted. Qed.
 Print Assumptions C05_sign_relu_exact.
+
+(* re-quantizing class (_softmax, where), exact arithmetic, element level, qint8: "within one step of the output
+   scale when it re-quantizes" - in fact within half a step whenever the float result fits the output grid.
+   softmax: scale 1/127, outputs in [0,1]: never saturated.  where: elements kept from the quantized input are
+   reproduced EXACTLY, elements of [other] within half a step if they fit, else saturated (F22, refuted form). *)
+From QV Require Import Proofs.QuantProofs Proofs.QOpsRequant.
+Theorem C05_requant_half_step : forall y s : R, (0 < s)%R -> (-128 * s <= y <= 127 * s)%R ->
+  (Rabs (symdq qint8 y s - y) <= s / 2)%R.
+Proof. exact requant_half_step_R. Qed.
+Theorem C05_requant_softmax : forall y : R, (0 <= y <= 1)%R -> (Rabs (symdq qint8 y (/ 127) - y) <= / 254)%R.
+Proof. exact requant_softmax_R. Qed.
+Theorem C05_requant_where_kept : forall (s : R) (k : Z), (0 < s)%R -> (-128 <= k <= 127)%Z ->
+  symq qint8 (s * IZR k)%R s = IZR k /\ symdq qint8 (s * IZR k)%R s = (s * IZR k)%R.
+Proof. exact requant_where_kept_R. Qed.
+Theorem C05_requant_where_other : forall y s : R, (0 < s)%R -> (Rabs y <= 127 * s)%R ->
+  (Rabs (symdq qint8 y s - y) <= s / 2)%R.
+Proof. exact requant_where_other_R. Qed.
+Theorem C05_requant_where_saturation_refuted : exists y s : R, (0 < s)%R /\ (s / 2 < Rabs (symdq qint8 y s - y))%R.
+Proof. exact requant_where_saturates_R. Qed.
+Print Assumptions C05_requant_where_kept.
+
+(* the same "kept exactly" statement at the level of IEEE arithmetic (Flocq), float32 and float16: the float
+   product s*k of ANY finite positive scale with a representable grid and ANY code k re-quantizes to k *)
+From Coq Require Import Lia.
+From Flocq Require Import Core IEEE754.BinarySingleNaN.
+From QV Require Import Float.F Proofs.FloatFacts Proofs.C01Float Proofs.C01Requant.
+Definition C05_where_kept_float_statement (prec emax : Z) (NF : Num (binary_float prec emax)) : Prop :=
+  forall (s : binary_float prec emax) (k : Z),
+  is_finite s = true -> (0 < B2R s)%R -> (128 * B2R s <= Fmax prec emax)%R -> (-128 <= k <= 127)%Z ->
+  @symq _ NF qint8 (@n_mul _ NF s (@n_of_Z _ NF k)) s = @n_of_Z _ NF k.
+Theorem C05_requant_where_kept_float32 : C05_where_kept_float_statement 24 128 Num32.
+Proof. exact (qint8_code_of_grid_point 24 128 Hp24 Hpe24 ltac:(lia) ltac:(lia)). Qed.
+Theorem C05_requant_where_kept_float16 : C05_where_kept_float_statement 11 16 Num16.
+Proof. exact (qint8_code_of_grid_point 11 16 Hp11 Hpe11 ltac:(lia) ltac:(lia)). Qed.
+Print Assumptions C05_requant_where_kept_float16.
